@@ -172,8 +172,8 @@ Notation custom_ok := Lemmas.Base32.custom_ok.
 Notation valid_custom := Lemmas.Base32.valid_custom.
 Notation eff := Lemmas.Base32.eff.
 Notation digits5 := Lemmas.Base32.digits5.
-Notation b32_dec := AddrInst.b32_dec.
-Notation b32_enc_nopad := AddrInst.b32_enc_nopad.
+Notation b32_dec := AddrCodecs.b32_dec.
+Notation b32_enc_nopad := AddrCodecs.b32_enc_nopad.
 
 Lemma memb_single (x c : N) : memb x [c] = true <-> x = c.
 Proof. rewrite memb_In. simpl. split; [intros [H|[]]; auto|auto]. Qed.
@@ -317,7 +317,7 @@ Theorem b32_dec_inv al s d : custom_ok al -> b32_dec al s = Ok d ->
     bits < 5 /\ pend < 2 ^ bits /\ 5 * N.of_nat (length ds) = 8 * N.of_nat (length d) + bits /\
     from_be 32 ds = be_to_int d * 2 ^ bits + pend.
 Proof.
-  intros Ha. unfold AddrInst.b32_dec, Codecs.b32_decode.
+  intros Ha. unfold AddrCodecs.b32_dec, Codecs.b32_decode.
   rewrite Base32Ok.b32_alphabet_rfc, Base32Ok.b32_pad_char_rfc. unfold Base32.decode.
   rewrite Lemmas.Base32.add_padding_bare. set (j := Lemmas.Base32.padcount (length s)).
   destruct al as [c|]; cbn [eff].
